@@ -78,10 +78,12 @@ func init() {
 				pairs(e, "c12", "pairs-patch6", d, p6)
 			}
 		},
-		Run:      runC12,
-		Required: func(string) []string { return []string{"object-patch", "non-object-patch", "null-member", "empty-object-member"} },
-		Assume:   []string{"RFC 7386 section 2 pseudocode transcribed in /verif/mc/ref"},
-		Budget:   budget(4*time.Minute, 40*time.Minute),
+		Run: runC12,
+		Required: func(string) []string {
+			return []string{"object-patch", "non-object-patch", "null-member", "empty-object-member"}
+		},
+		Assume: []string{"RFC 7386 section 2 pseudocode transcribed in /verif/mc/ref"},
+		Budget: budget(4*time.Minute, 40*time.Minute),
 	})
 }
 
